@@ -762,7 +762,7 @@ func sentinelName(v ssa.Value) string {
 }
 
 func ruleE1(r *Run) {
-	r.Begin("E1", "a branch that compares an enum-typed parameter with a constant and returns a sentinel error must be feasible: the constant is among the values that can reach the parameter from the call sites (call-site sensitive through function-valued arguments)", 1)
+	r.Begin("E1", "a branch that compares an enum-typed parameter with a constant and returns a sentinel error must be feasible: the constant is among the values that can reach the parameter from the call sites (call-site sensitive through function-valued arguments)", 0)
 	p := r.P
 	n := 0
 	for _, fn := range p.Funcs {
